@@ -182,3 +182,30 @@ def c07(c):
     ]
     c.partial = ["continuous Butcher theorem (conditions ⇒ uniform O(h^{q+1}) error) is cited, not formalised",
                  "Radau (collocation polynomial) and BDF interpolant accuracy: only observed by the order monitor (Radau) / dense_check"]
+
+
+# ---------------------------------------------------------------------------------------------- C17
+C17_THEOREMS = [
+    "Mat.get_of_wf", "Mat.get_out_of_range", "Mat.identity_wf", "Mat.zeros_wf", "Mat.full_wf", "Mat.fromStorage_wf",
+    "Mat.banded_wf", "Mat.lower_upper_wf", "Mat.diagonal_wf", "Mat.fromVec_wf", "Mat.square_wf", "Mat.square_buffer_allocated",
+    "Mat.constructors_readable", "Mat.band_index_inj", "Mat.full_index_inj", "Mat.set_panics", "Mat.set_spec",
+    "Mat.addSub_dense", "Mat.add_dense", "Mat.sub_dense", "Mat.addSub_mismatch", "Mat.componentAddSub_dense",
+    "Mat.componentMul_dense", "Mat.isIdentity_of_identity",
+]
+
+
+def c17(c):
+    common_proof(c, "IvpModel.Props.C17", C17_THEOREMS)
+    if c.build_harness() and c.build_driver():
+        if c.tier == "quick":
+            c.stream("xmatrix", ["xmatrix", c.seed, 300, 6, 3], "matrix")
+        else:
+            c.stream("xmatrix", ["xmatrix", c.seed, 6000, 8, 4], "matrix")
+        generic_monitor(c, "matrix_oracle", ["matrix-oracle", c.seed, 400 if c.tier == "quick" else 6000, 6 if c.tier == "quick" else 8], "moracle")
+    c.cov["samples"] += [
+        {"theorem": "Mat.addSub_dense", "statement": "WF A → WF B → A.n = B.n → ∃ C, addSub isAdd A B = some C ∧ WF C ∧ ∀ i j < n, entry C i j = entry A i j ± entry B i j  (all 9 storage pairs, all bandwidths, all n)"},
+        {"theorem": "Mat.set_spec", "statement": "in-band/Full write: ∃ A', set A i j v = some A' ∧ WF A' ∧ ∀ i' j', entry A' i' j' = if (i',j')=(i,j) then v else entry A i' j'"},
+    ]
+    c.partial = ["is_identity for Full/Banded storage and component_mul_mut are tied by the exhaustive/random X-matrix co-simulation only",
+                 "matrix! / banded_matrix! macros are not modelled (the bracket form of matrix! does not compile as documented: observation O2)",
+                 "entries are exact (ordered field); binary64 only through co-simulation on small dyadic entries"]
